@@ -32,6 +32,7 @@ LEVEL_TEXT = (
     "twice); a sibling program (every calculation shifted by one) is compiled by the same engine object; in a "
     "quarter of the cases the engine first has to refuse some compilations (unprocessed materialization below a "
     "sub-query, a column function that raises while being converted)."
+    "  Every root relation with determined content is also compiled with an additional SELECT expression (to_executable's extra_columns, as a list and as a one-shot iterator): same rows, and the extra value in every row."
 )
 LEVEL_NOTE = (
     "trusts: reference evaluator ev_bag + its determinacy labels (DESIGN 4.4), SQLite 3.40 / SQLAlchemy 2.0; domain: join "
@@ -183,6 +184,26 @@ def run_case(case, stats):
             if id(sib) in rels2:
                 check_relation(env, sib, rels2[id(sib)], leaves, {}, rels2, stats, "sibling program (calculations shifted by one), same engine")
                 stats.c["sibling-programs"] += 1
+        if root_res and root_res[0] is not None and root_res[0].det:
+            # to_executable(relation, extra_columns=...): additional SELECT expressions must come back with every row and
+            # must not change the relation's own rows, whether the Iterable is a list or a one-shot iterator
+            from vf.core.sqlh import CompileError, run_with_extra
+
+            res, rel = root_res
+            for one_shot in (False, True):
+                how = "a one-shot iterator" if one_shot else "a list"
+                try:
+                    rows_x, extras, ex_x = run_with_extra(env, rel, one_shot)
+                except CompileError as e:
+                    raise Violation("compile-raised", f"to_executable(extra_columns={how}) raised {e}; program {fmt(prog, leaves)}; tree {rel}", exc=e.exc, extra_columns=how)
+                except DatabaseError as e:
+                    raise Violation("database-error", f"statement compiled with extra_columns={how}: {e}; program {fmt(prog, leaves)}; tree {rel}; SQL {e.sql_text[:600]}", extra_columns=how)
+                bad = compare(res, rows_x)
+                if bad:
+                    raise Violation("rows-differ", f"[compiled with extra_columns={how}] {bad}; program {fmt(prog, leaves)}; tree {rel}; SQL {sql_text(ex_x)[:600]}", extra_columns=how)
+                if any(x != 7 for x in extras):
+                    raise Violation("extra-column-lost", f"extra_columns={how}: the additional SELECT expression came back as {extras[:5]} (expected 7 in every row); program {fmt(prog, leaves)}; SQL {sql_text(ex_x)[:600]}", extra_columns=how)
+            stats.c["extra-columns-probes"] += 1
         if root_res and root_res[0] is not None:
             res, rel = root_res
             ks = kinds(prog)
